@@ -348,6 +348,23 @@ Fixpoint eval (setf : prims) (fuel : nat) (e : env) (x : gexpr) : eres :=
         | EV _ _ => EStuck
         | r => r
         end
+    | ESlice a [] [hi] =>
+        (* a[:hi] within the capacity; elements between len and hi are whatever the backing array
+           holds - modelled as 0 (the readers overwrite every one of them before returning normally) *)
+        match ev e a with
+        | EV e1 (VSlice l c) =>
+            match ev e1 hi with
+            | EV e2 v => match as_int v with
+                         | Some h => if (0 <=? h) && (h <=? c)
+                                     then EV e2 (VSlice (firstn (Z.to_nat h) l ++ repeat 0 (Z.to_nat h - List.length l)) c)
+                                     else EP e2 pRt
+                         | None => EStuck
+                         end
+            | r => r
+            end
+        | EV _ _ => EStuck
+        | r => r
+        end
     | ESlice _ _ _ => EStuck
     | ELit ty fs =>
         (* statesCfg{} / biomesCfg{}: the configuration value bound to the type's name *)
@@ -367,6 +384,10 @@ Fixpoint eval (setf : prims) (fuel : nat) (e : env) (x : gexpr) : eres :=
             if prefixb "[]" ty then
               match vs with
               | [VZ 0; VZ c] => if 0 <=? c then EV e1 (VSlice [] c) else EP e1 pRt
+              | [v] => match as_int v with
+                       | Some c => if 0 <=? c then EV e1 (VSlice (repeat 0 (Z.to_nat c)) c) else EP e1 pRt
+                       | None => EStuck
+                       end
               | _ => EStuck
               end
             else if prefixb "map[" ty then match vs with [] => EV e1 (VIds []) | _ => EStuck end
@@ -418,6 +439,11 @@ Fixpoint eval (setf : prims) (fuel : nat) (e : env) (x : gexpr) : eres :=
         | LStuck => EStuck
         | LP e1 w => EP e1 w
         end
+    | ECall (ESel (EId "errors") "New") [EStr msg] =>
+        (* the two errors of the palette readers, by their text *)
+        if String.eqb msg "level: negative palette length" then EV e (VErr eNegPal)
+        else if String.eqb msg "level: palette length exceeds its width" then EV e (VErr eBigPal)
+        else EStuck
     | ECall (ESel recv m) args =>
         match ev e recv with
         | EV e1 rv =>
@@ -510,6 +536,28 @@ Fixpoint eval_rets (ev : env -> gexpr -> eres) (e : env) (xs : list gexpr) (acc 
               end
   end.
 
+(* does the statement (to nesting depth d) assign the variable x ? (conservative: true beyond d) *)
+Fixpoint stmt_assigns (d : nat) (x : string) (s : gstmt) : bool :=
+  match d with
+  | O => true
+  | S d' =>
+      let any := existsb (stmt_assigns d' x) in
+      let lhs_has := existsb (fun l => match l with EId y => String.eqb x y | _ => false end) in
+      match s with
+      | SDefine _ _ => false                  (* a new variable, even of the same name, is another one *)
+      | SAssign lhs _ _ => lhs_has lhs
+      | SVar _ _ => false
+      | SIf init _ th el => any init || any th || any el
+      | SFor init _ post body => any init || any post || any body
+      | SRange _ _ _ body => any body
+      | SSwitch _ cases => existsb (fun c => any (snd c)) cases
+      | SReturn _ => false
+      | SExpr _ => false                      (* calls mutate objects, not integer locals *)
+      | SIncDec (EId y) _ => String.eqb x y
+      | SIncDec _ _ => false
+      end
+  end.
+
 Fixpoint exec (setf : prims) (fuel : nat) (e : env) (s : gstmt) : sres :=
   match fuel with
   | O => SStuck
@@ -561,6 +609,24 @@ Fixpoint exec (setf : prims) (fuel : nat) (e : env) (s : gstmt) : sres :=
             | EV _ _ => SStuck | EP e2 w => SP e2 w | EStuck => SStuck
             end
         | EV _ _ => SStuck | EP e1 w => SP e1 w | EStuck => SStuck
+        end
+    | SAssign [EIndex (ESel (EId p) "values") k] "=" [x] =>
+        (* p.values[k] = x on a linear palette *)
+        match ev e k with
+        | EV e1 vk =>
+            match ev e1 x with
+            | EV e2 vx =>
+                match as_int vk, as_int vx, lookup e2 p with
+                | Some i, Some z, Some (VPal (PLinear vals cap pb)) =>
+                    if (0 <=? i) && (i <? zlen vals)
+                    then match upd e2 p (VPal (PLinear (upd_nth vals (Z.to_nat i) z) cap pb)) with
+                         | Some e3 => SN e3 | None => SStuck end
+                    else SP e2 pRt
+                | _, _, _ => SStuck
+                end
+            | EP e2 w => SP e2 w | EStuck => SStuck
+            end
+        | EP e1 w => SP e1 w | EStuck => SStuck
         end
     | SAssign [EIndex (EId m) k] "=" [x] =>
         (* m[k] = x on a local map built as the index of a slice: only x = number of entries so far *)
@@ -620,6 +686,23 @@ Fixpoint exec (setf : prims) (fuel : nat) (e : env) (s : gstmt) : sres :=
             end
         | r => r
         end
+    | SFor [SDefine [i] [a]] [EBin "<" (EId i') (ECall (EId "int") [EId x])] [SIncDec (EId i'') true] body =>
+        (* counted loop with any body: the bound is a variable the body does not assign *)
+        if String.eqb i i' && String.eqb i i'' && negb (String.eqb i x) && negb (existsb (stmt_assigns 4 x) body) then
+          match ev e a with
+          | EV e1 (VZ lo) =>
+              match ev e1 (EId x) with
+              | EV e2 vh =>
+                  match as_int vh with
+                  | Some hi => count_loop (fun e' => scoped e' body) i e2
+                                 (map (fun k => lo + Z.of_nat k) (seq 0 (Z.to_nat (hi - lo))))
+                  | None => SStuck
+                  end
+              | EP e2 w => SP e2 w | EStuck => SStuck
+              end
+          | EV _ _ => SStuck | EP e1 w => SP e1 w | EStuck => SStuck
+          end
+        else SStuck
     | SFor [SDefine [i] [a]] [EBin "<" (EId i') b] [SIncDec (EId i'') true] body =>
         (* counted loop whose body consists of call statements: the bound cannot change *)
         if String.eqb i i' && String.eqb i i'' && forallb is_call_stmt body then
